@@ -191,6 +191,7 @@ func c13(tier string) []*explore.Scenario {
 			out = append(out, c13SeqC(mix, false, si, 0, 2, 1, true, true), c13SeqC(mix, true, si, 1, 3, 0, true, true))
 		}
 	}
+	out = append(out, opInWriteAll("C13", 0)...)
 	return out
 }
 
